@@ -83,11 +83,14 @@ type Hist struct {
 	forb    []RawHeader // forbidden headers generated so far
 	// statistics for the non-triviality rule
 	nFork, nLabelChange, nOrphan, nTie, nRestart, nDup, nForb int
-	lastLabels                                                 map[Hash32]string
+	lastLabels                                                map[Hash32]string
 	// Submit hook (crashsim/notifysim replace the plain call)
 	AddFn func(src domains.BlockHeaderSource) (*domains.BlockHeader, error)
 	// OnStored is called for every header the model says was stored.
 	OnStored func(h *MHeader)
+	// SoftChecks / Deferred: see CheckStore.
+	SoftChecks bool
+	Deferred   *Violation
 	// OnSubmit sees every submission (crashsim records H with it).
 	OnSubmit func(raw RawHeader)
 	// SkipChecks disables the per-step full comparison (engines that check at their own points).
@@ -336,12 +339,23 @@ func (h *Hist) Submit(raw RawHeader, what string) {
 	cls := answerClass(got, err)
 	if cls != exp {
 		shape := h.submissionShape(mh, raw, parentWasBest, exp)
-		r.Fail("C01", "answer", shape+"|got="+cls, "Chains.Add(%s) answered %s (err=%v), model expects %s", short(hash), cls, err, exp)
+		v := r.Try(func() {
+			r.Fail("C01", "answer", shape+"|got="+cls, "Chains.Add(%s) answered %s (err=%v), model expects %s", short(hash), cls, err, exp)
+		})
+		if !h.SoftChecks || r.Prop == "C01" {
+			panic(violationPanic{v})
+		}
+		if h.Deferred == nil {
+			h.Deferred = v
+		}
+		if exp == OutStored && got == nil {
+			return // nothing was stored; the model keeps its view, the focus oracles will tell
+		}
 	}
 	switch exp {
 	case OutStored:
 		h.acked[hash] = true
-		if got.Hash.String() != hash.String() {
+		if got != nil && got.Hash.String() != hash.String() {
 			r.Fail("C03", "hash", "returned-hash", "Add returned hash %s, double-SHA256 of the 80 bytes is %s", got.Hash.String(), hash.String())
 		}
 		if mh.Label == LOrphan {
@@ -437,95 +451,119 @@ func parseDBTime(s string) (int64, bool) {
 func (h *Hist) CheckStore(shape string) {
 	r, w, m := h.r, h.w, h.m
 	rows := w.Snapshot()
-	// --- C03 disappearance / invention
-	for _, x := range m.Headers {
-		if _, ok := rows[x.HashStr()]; !ok {
-			prop := "C03"
-			r.Fail(prop, "missing-row", shape, "header %s (arrival %d) is not in the headers table", short(x.Hash), x.Arrival)
-		}
-	}
-	if len(rows) != len(m.Headers) {
-		for k := range rows {
-			found := false
-			for _, x := range m.Headers {
-				if x.HashStr() == k {
-					found = true
-				}
+	presence := func() {
+		// --- C03 disappearance / invention
+		for _, x := range m.Headers {
+			if _, ok := rows[x.HashStr()]; !ok {
+				prop := "C03"
+				r.Fail(prop, "missing-row", shape, "header %s (arrival %d) is not in the headers table", short(x.Hash), x.Arrival)
 			}
-			if !found {
-				prop := "C01"
-				var hh Hash32
-				for _, f := range h.forb {
-					if f.Hash().String() == k {
-						prop, hh = "C07", f.Hash()
+		}
+		if len(rows) != len(m.Headers) {
+			for k := range rows {
+				found := false
+				for _, x := range m.Headers {
+					if x.HashStr() == k {
+						found = true
 					}
 				}
-				_ = hh
-				r.Fail(prop, "extra-row", shape, "headers table holds %s which the model never stored", k[:8])
+				if !found {
+					prop := "C01"
+					var hh Hash32
+					for _, f := range h.forb {
+						if f.Hash().String() == k {
+							prop, hh = "C07", f.Hash()
+						}
+					}
+					_ = hh
+					r.Fail(prop, "extra-row", shape, "headers table holds %s which the model never stored", k[:8])
+				}
 			}
 		}
 	}
-	// --- per-row fields
-	for _, x := range m.Headers {
-		row := rows[x.HashStr()]
-		if row.Height != int64(x.Height) {
-			r.Fail("C03", "height", shape, "%s height=%d, model %d", short(x.Hash), row.Height, x.Height)
-		}
-		if row.Chainwork != x.Work.String() {
-			r.Fail("C03", "work", fmt.Sprintf("bits=%08x", x.Raw.Bits), "%s chainwork=%s, spec %s (bits %08x)", short(x.Hash), row.Chainwork, x.Work, x.Raw.Bits)
-		}
-		if row.Cumulated != x.Cum.String() {
-			r.Fail("C03", "cumulated-work", shape, "%s cumulated_work=%s, model %s", short(x.Hash), row.Cumulated, x.Cum)
-		}
-		if row.Prev != x.Raw.Prev.String() || row.Merkle != x.Raw.Merkle.String() || row.Version != int64(x.Raw.Version) ||
-			row.Nonce != int64(x.Raw.Nonce) || row.Bits != int64(x.Raw.Bits) {
-			r.Fail("C03", "field", shape, "%s stored fields differ from the submitted ones: row=%+v raw=%+v", short(x.Hash), row, x.Raw)
-		}
-		if ts, ok := parseDBTime(row.Timestamp); !ok || ts != int64(x.Raw.Time) {
-			r.Fail("C03", "timestamp", fmt.Sprintf("tz=%s", time.Local.String()), "%s stored timestamp %q != submitted %d", short(x.Hash), row.Timestamp, x.Raw.Time)
-		}
-	}
-	// --- C01 labels
-	for _, x := range m.Headers {
-		row := rows[x.HashStr()]
-		if row.State != x.Label {
-			r.Fail("C01", "label", shape, "%s (height %d, arrival %d) is %s, model says %s; model tip %s", short(x.Hash), x.Height, x.Arrival, row.State, x.Label, short(m.Best().Hash))
+	fields := func() {
+		// --- per-row fields
+		for _, x := range m.Headers {
+			row := rows[x.HashStr()]
+			if row.Height != int64(x.Height) {
+				r.Fail("C03", "height", shape, "%s height=%d, model %d", short(x.Hash), row.Height, x.Height)
+			}
+			if row.Chainwork != x.Work.String() {
+				r.Fail("C03", "work", fmt.Sprintf("bits=%08x", x.Raw.Bits), "%s chainwork=%s, spec %s (bits %08x)", short(x.Hash), row.Chainwork, x.Work, x.Raw.Bits)
+			}
+			if row.Cumulated != x.Cum.String() {
+				r.Fail("C03", "cumulated-work", shape, "%s cumulated_work=%s, model %s", short(x.Hash), row.Cumulated, x.Cum)
+			}
+			if row.Prev != x.Raw.Prev.String() || row.Merkle != x.Raw.Merkle.String() || row.Version != int64(x.Raw.Version) ||
+				row.Nonce != int64(x.Raw.Nonce) || row.Bits != int64(x.Raw.Bits) {
+				r.Fail("C03", "field", shape, "%s stored fields differ from the submitted ones: row=%+v raw=%+v", short(x.Hash), row, x.Raw)
+			}
+			if ts, ok := parseDBTime(row.Timestamp); !ok || ts != int64(x.Raw.Time) {
+				r.Fail("C03", "timestamp", fmt.Sprintf("tz=%s", time.Local.String()), "%s stored timestamp %q != submitted %d", short(x.Hash), row.Timestamp, x.Raw.Time)
+			}
 		}
 	}
-	// --- service view
-	best := m.Best()
-	var tip *domains.BlockHeader
-	if pan, pv, st := guard(func() { tip = w.Svc.Headers.GetTip() }); pan {
-		r.Fail("C01", "panic", "GetTip@"+panicSite(st), "GetTip panicked: %v", pv)
+	labels := func() {
+		// --- C01 labels
+		for _, x := range m.Headers {
+			row := rows[x.HashStr()]
+			if row.State != x.Label {
+				r.Fail("C01", "label", shape, "%s (height %d, arrival %d) is %s, model says %s; model tip %s", short(x.Hash), x.Height, x.Arrival, row.State, x.Label, short(m.Best().Hash))
+			}
+		}
 	}
-	if tip == nil {
-		r.Fail("C01", "tip", shape+"|nil", "GetTip returned nil, model tip %s", short(best.Hash))
+	views := func() {
+		// --- service view
+		best := m.Best()
+		var tip *domains.BlockHeader
+		if pan, pv, st := guard(func() { tip = w.Svc.Headers.GetTip() }); pan {
+			r.Fail("C01", "panic", "GetTip@"+panicSite(st), "GetTip panicked: %v", pv)
+		}
+		if tip == nil {
+			r.Fail("C01", "tip", shape+"|nil", "GetTip returned nil, model tip %s", short(best.Hash))
+		}
+		if tip.Hash.String() != best.HashStr() {
+			r.Fail("C01", "tip", shape, "GetTip=%s (h=%d, %s) but model tip=%s (h=%d)", tip.Hash.String()[:8], tip.Height, tip.State, short(best.Hash), best.Height)
+		}
+		// the header just touched + one drawn header through GetHeaderByHash and the HTTP API
+		probe := m.Headers[len(m.Headers)-1]
+		h.checkHeaderViews(probe, shape)
+		if len(m.Headers) > 2 {
+			h.checkHeaderViews(m.Headers[h.r.T.Draw(len(m.Headers), "view-probe")], shape)
+		}
+		// tip/longest over HTTP
+		code, body := w.HTTP("GET", "/api/v1/chain/tip/longest", nil, nil)
+		var ts struct {
+			Header struct {
+				Hash string `json:"hash"`
+			} `json:"header"`
+			State     string      `json:"state"`
+			ChainWork json.Number `json:"chainWork"`
+			Height    int32       `json:"height"`
+		}
+		if code != 200 || json.Unmarshal(body, &ts) != nil {
+			r.Fail("C01", "http-tip", shape, "GET tip/longest -> %d %s", code, string(body))
+		}
+		if ts.Header.Hash != best.HashStr() || ts.State != LLongest || ts.Height != best.Height || ts.ChainWork.String() != best.Cum.String() {
+			r.Fail("C01", "http-tip", shape, "GET tip/longest = %s, model tip %s h=%d cum=%s", string(body), short(best.Hash), best.Height, best.Cum)
+		}
 	}
-	if tip.Hash.String() != best.HashStr() {
-		r.Fail("C01", "tip", shape, "GetTip=%s (h=%d, %s) but model tip=%s (h=%d)", tip.Hash.String()[:8], tip.Height, tip.State, short(best.Hash), best.Height)
+	// the oracle blocks are independent; a defect that breaks several properties is reported under the focus one
+	if h.SoftChecks {
+		// engines whose focus is another property go on after a store/model mismatch, so that their own oracles get
+		// to judge the consequences; the mismatch is reported at the end of the run if nothing of the focus
+		// property was found
+		if v := r.Try(func() { r.FailFirstOf(presence, fields, labels, views) }); v != nil {
+			if v.Prop == r.Prop {
+				panic(violationPanic{v})
+			}
+			if h.Deferred == nil {
+				h.Deferred = v
+			}
+		}
+		return
 	}
-	// the header just touched + one drawn header through GetHeaderByHash and the HTTP API
-	probe := m.Headers[len(m.Headers)-1]
-	h.checkHeaderViews(probe, shape)
-	if len(m.Headers) > 2 {
-		h.checkHeaderViews(m.Headers[h.r.T.Draw(len(m.Headers), "view-probe")], shape)
-	}
-	// tip/longest over HTTP
-	code, body := w.HTTP("GET", "/api/v1/chain/tip/longest", nil, nil)
-	var ts struct {
-		Header struct {
-			Hash string `json:"hash"`
-		} `json:"header"`
-		State     string      `json:"state"`
-		ChainWork json.Number `json:"chainWork"`
-		Height    int32       `json:"height"`
-	}
-	if code != 200 || json.Unmarshal(body, &ts) != nil {
-		r.Fail("C01", "http-tip", shape, "GET tip/longest -> %d %s", code, string(body))
-	}
-	if ts.Header.Hash != best.HashStr() || ts.State != LLongest || ts.Height != best.Height || ts.ChainWork.String() != best.Cum.String() {
-		r.Fail("C01", "http-tip", shape, "GET tip/longest = %s, model tip %s h=%d cum=%s", string(body), short(best.Hash), best.Height, best.Cum)
-	}
+	r.FailFirstOf(presence, fields, labels, views)
 }
 
 func (h *Hist) checkHeaderViews(x *MHeader, shape string) {
